@@ -616,6 +616,15 @@ class ExprMixin:
             yield st, mk_bool(f(a.z, b.z))
             return
         if not (vals.is_num(ta) and vals.is_num(tb)):
+            # a user-defined operator: objects / records of a declared class whose dunder method is under contract
+            cname = ta.cls if isinstance(ta, TRef) else (ta.recname if isinstance(ta, TTuple) else None)
+            dunder = {ast.Add: "__add__", ast.Sub: "__sub__", ast.Mult: "__mul__", ast.BitOr: "__or__",
+                      ast.BitAnd: "__and__"}.get(type(op))
+            if cname in self.ct.classes and dunder and self.ct.method(cname, dunder) is not None:
+                m = self.ct.method(cname, dunder)
+                fr = FuncRef(self.ct.classes[m[0]].module, f"{m[0]}.{dunder}", bound_self=a, cls=cname)
+                yield from self.call_function(st, fr, [b], {}, node)
+                return
             raise EngineError(f"binary {type(op).__name__} on {ta} and {tb}: {ast.unparse(node)}")
         if isinstance(ta, TFP) or isinstance(tb, TFP):
             yield from self.binop_fp(st, op, a, b, node)
